@@ -195,6 +195,7 @@ type ordNet struct {
 	sentLately map[uint64]int64
 	lag        int
 	timed      bool
+	feedhub    bool // the replicas run the node's real feed hub between order layer and executor
 	typ        string
 	n          int
 	batch      int
@@ -285,6 +286,9 @@ func (nw *ordNet) spawn(id uint64, extraEnv []string, extraArgs ...string) error
 	}
 	if nw.lag > 0 {
 		args = append(args, "-lag", fmt.Sprint(nw.lag))
+	}
+	if nw.feedhub {
+		args = append(args, "-feedhub")
 	}
 	args = append(args, extraArgs...)
 	cmd := exec.Command(nw.self, args...)
@@ -412,6 +416,12 @@ func ordScenario(w *vlog.W, a *wargs, id int, rng *rand.Rand, viol func(sig, det
 	nw.timed = rng.Intn(4) == 0
 	if nw.timed {
 		w.Count("scenario:timed-block-generation", 1)
+	}
+	// two of three scenarios: committed blocks, executed-block reports and peer messages pass through the
+	// node's real feed hub (internal/app) instead of the harness's own loop
+	nw.feedhub = id%3 != 0
+	if nw.feedhub {
+		w.Count("scenario:through-real-feed-hub", 1)
 	}
 	nw.maxDelay = time.Duration(rng.Intn(15)) * time.Millisecond
 	for i := 1; i <= n; i++ {
